@@ -15,13 +15,24 @@ def run(ctx, factor):
                 "once or several times), several uses per macro, definitions split between the rule file and 0-2 extra "
                 "macro files; compiled regex of the macro rule must equal that of the original (inlined) rule on the "
                 "real code; the macro definitions are deep-compared before/after expansion; expanded tree vs the model's")
-    REGEXY = [r"%r[abcd]x\b", r"0x\d+", r"a\\b", r"\w+q", r"%[re]?[abcd][xl]", r"\$0x[0-9a-f]{2}", r"x\.y", r"r\d\d?d"]
+    REGEXY = [r"%r[abcd]x\b", r"0x\d+", r"a\\b", r"\w+q", r"%[re]?[abcd][xl]", r"\$0x[0-9a-f]{2}", r"x\.y", r"r\d\d?d", "%r[0-9][0-9]", "[a-f][a-f]x", "0x0x0", "aaaa", "%xmm1%xmm1"]
     for it in range(ctx.budget(500, 8000) * factor):
         doc = gen_rules.rule(g, {"ops", "logic", "times", "ops_logic", "not", "deref"}, depth=2)
         if it % 9 == 0:
             # names are regular-expression fragments: a macro body may hold backslash escapes, and must be inserted verbatim
             doc = {"pattern": [{g.pick(["mov", "add", r"j\w+"]): [g.pick(REGEXY) for _ in range(g.int(1, 3))]} for _ in range(g.int(1, 2))]}
         mdoc, files, forms = gen_macros.factor(g, doc)
+        if it % 9 == 4:
+            # one string macro referenced several times inside ONE name (`%r@d@d`), next to a single reference
+            part = g.pick(["[0-9]", "a", "xmm", r"\d", "0x"])
+            n = g.pick([2, 2, 3])
+            pre, post = g.pick(["%r", "", "0x"]), g.pick(["", "d", "q"])
+            mn = g.pick(["mov", "add"])
+            doc = {"pattern": [{mn: [pre + part * n + post, pre + part + post]}]}
+            mdoc = {"macros": [{"name": "@d", "pattern": part}], "pattern": [{mn: [pre + "@d" * n + post, pre + "@d" + post]}]}
+            files, forms = [], ["substring-repeated-in-one-name"]
+            if g.chance(0.4):
+                files, mdoc = [{"macros": mdoc.pop("macros")}], mdoc
         if not forms:
             continue
         # a second use of one of the macros, same arguments (uses must not influence each other)
